@@ -29,14 +29,14 @@ func c09plan(tier string) c09Plan {
 	if tier == "thorough" {
 		return c09Plan{direct: 4096, indirect: 256, decoder: 1 + 256 + 4096, resolve: 256, palettes: len(c09PosSets()) + 2}
 	}
-	return c09Plan{direct: len(c09Pairs) * len(c09Fill) * len(c09Fill), indirect: 1, decoder: 1, resolve: 256, palettes: len(c09PosSets()) + 2}
+	return c09Plan{direct: len(c09Pairs)*len(c09Fill)*len(c09Fill) + 256, indirect: 256, decoder: 1, resolve: 256, palettes: len(c09PosSets()) + 2}
 }
 
 func init() {
 	mc.Register(&mc.Check{
 		ID:    "C09",
 		Level: "exploration",
-		Rule: "engine P: (i) direct RGBA colours through SetCReg -> Bytes -> Decode (quick: every channel pair swept 256x256 with the other two channels at each of 7 fill values = 19.3M colours crossing every 1/2/3/4-byte form boundary; thorough: all 2^32), all 256 palette-index and register-reference arguments, blends (quick 256x256x16, thorough all 2^24); " +
+		Rule: "engine P: (i) direct RGBA colours through SetCReg -> Bytes -> Decode (quick: every channel pair swept 256x256 with the other two channels at each of 7 fill values = 19.3M colours crossing every 1/2/3/4-byte form boundary, plus every red x green in multiples of 0x11 x every blue x every alpha = 268M; thorough: all 2^32), all 256 palette-index and register-reference arguments, all 2^24 blends; " +
 			"(ii) decoder tables: all 256 one-byte, 65536 two-byte, channel sweeps (thorough: all 2^24 three-byte and 2^32 four-byte) patterns against the reference tables; (iii) Color.Resolve for all 2^24 (t,c0,c1) under 4 palette/register contexts and through the Renderer's paint for a subset; " +
 			"(iv) suggested palettes through Encoder.Reset -> Decode, next to the default and next to a custom viewBox: every palette with <=3 explicit entries at positions {0,1,2,31,62,63} over 20 valid premultiplied colours, uniform palettes of every length, all two-byte-able colours at position 0. " +
 			"distinct = hash of (route, form length or colour kind, validity class); non-trivial = colour needs a 2-, 3- or 4-byte form, or blend with 0<t<255",
@@ -162,6 +162,23 @@ func (st *c09State) direct(u int) {
 		return
 	}
 	nf := len(c09Fill)
+	if u >= len(c09Pairs)*nf*nf {
+		// quick tier, second family: red = unit, green over the multiples of 0x11, every blue and alpha (268 M colours)
+		r := uint8(u - len(c09Pairs)*nf*nf)
+		for g := 0; g < 256; g += 0x11 {
+			for ba := 0; ba < 1<<16; ba++ {
+				cols = append(cols, ivg.RGBAColor(color.RGBA{r, uint8(g), uint8(ba >> 8), uint8(ba)}))
+				if len(cols) == cap(cols) {
+					flush()
+				}
+			}
+			if w.Expired() {
+				return
+			}
+		}
+		flush()
+		return
+	}
 	pair := c09Pairs[u/(nf*nf)]
 	f1, f2 := c09Fill[u/nf%nf], c09Fill[u%nf]
 	for a := 0; a < 256; a++ {
@@ -194,7 +211,7 @@ func (st *c09State) direct(u int) {
 
 func (st *c09State) indirect(u int) {
 	var cols []ivg.Color
-	if !st.w.Thorough || u == 0 {
+	if u == 0 {
 		for i := 0; i < 256; i++ {
 			cols = append(cols, ivg.PaletteIndexColor(uint8(i)))
 		}
@@ -206,12 +223,12 @@ func (st *c09State) indirect(u int) {
 		st.encodeBatch("creg-ref", cols, -1)
 		cols = cols[:0]
 	}
-	if !st.w.Thorough || u == 0 {
+	if u == 0 {
 		st.repeats()
 	}
 	c1s := []int{0x00, 0x7c, 0x7d, 0x7e, 0x7f, 0x80, 0x81, 0xbf, 0xc0, 0xc1, 0xff, 0x30, 0x63, 0x18, 0x90, 0xd0}
 	tFrom, tTo := 0, 256
-	if st.w.Thorough {
+	{
 		tFrom, tTo = u, u+1
 		c1s = c1s[:0]
 		for i := 0; i < 256; i++ {
